@@ -144,6 +144,16 @@ CHECKS['C11'] = dict(
     design_ref='DESIGN.md 4/C11',
     note='Trusted: MIR = code; std builtins. Outside: sequences of 40 tokens, arbitrary Unicode beyond the listed scalars, the parser on the token stream.',
     technique='symbolic execution of rustc MIR on symbolic bytes; per path all consistent byte assignments enumerated by z3 (blocking clauses) against longest-match / escape-decoding oracles; native replay (bounded: bytes, token pairs)')
+CHECKS['C05'] = dict(
+    category='model_checking',
+    text='The real AstPrinter (every render arm, comment-group logic) and the real tokenizer + parser run from MIR. (1) One skeleton per expression/statement kind is parsed one token per line by the real parser; then every Position.line of the tree '
+         'becomes a symbolic line number (monotone, gaps 0..3) and 1..2 comment groups sit on symbolic lines (own line, trailing, two-line group): the printer\'s line comparisons fork the run and z3 decides which orders of comments and nodes are feasible, so '
+         'each path stands for every layout with that order. Per path the output must re-parse (real parser) to the same tree modulo positions/field quoting, keep every comment in order, and re-format to itself when its comments sit between statements. '
+         '(2) String literals and quoted field names of 1..2/3 symbolic bytes: printed (escape_quotes, is_bareword) and read back by the real parser on the symbolic output; z3 decides equality. (3) ~37 concrete literal/comment forms and the repository\'s .ucg files '
+         '(engine for a sample, natively for all 70+: concrete differential, also validating the engine against the real printer).',
+    design_ref='DESIGN.md 4/C05',
+    note='Trusted: MIR = code; std builtins; the harness-built comment map for symbolic lines (one group per comment; models replayed natively). Outside: columns and indentation of the input, more than 2 comment groups, generator programs beyond the skeletons, the -w overwrite path.',
+    technique='symbolic execution of rustc MIR (AstPrinter over trees with symbolic line numbers and symbolic string bytes, real parser on the output); z3 decides feasible comment/node orders and byte equality; native replay (bounded: skeletons, comments, bytes)')
 NOT_APPLICABLE = {
 }
 ALL = ['C%02d' % i for i in range(1, 21)]
